@@ -108,7 +108,12 @@ def gen(spec, lv):
     pre = []
     if lv.symbolic and len(modes) > 1:
         pre.append(z3.Distinct(modes))
-    return {"text": "\n".join(L) + "\n", "pre": pre, "max_paths": 1500}
+    g = {"text": "\n".join(L) + "\n", "pre": pre, "max_paths": 1500}
+    if head == "list" and lt in ("int", "float") and any(k in ("True", "False") for k in hopt[1]):
+        # a boolean listed in an int / float loop: "converted to the declared type" (the variable is the int 1 / the float 1.0, never
+        # the bool) or "not of the loop type: refused" - the property allows both readings, the check accepts both and nothing else
+        g["refusal_also_ok"] = True
+    return g
 
 
 def gen_specs(tier, seed):
@@ -123,8 +128,9 @@ def gen_specs(tier, seed):
     for lt, body in ((("int", "mode"), ("float", "args")) if tier == "quick" else (("int", "mode"), ("int", "args"), ("float", "args"), ("int", "mode+args"))):
         specs.append(("two", lt, None, body, False, "none"))
     lists = {
-        "int": [("int",), ("int", "int"), ("int", "intexpr", "int"), ("negint", "int"), ("float",), ("int", "float"), ("str",), ("int", "str"), ("complex",)],
-        "float": [("float",), ("float", "int"), ("int", "float", "float"), ("str",), ("complex", "float")],
+        "int": [("int",), ("int", "int"), ("int", "intexpr", "int"), ("negint", "int"), ("float",), ("int", "float"), ("str",), ("int", "str"), ("complex",),
+                ("True",), ("True", "False", "int"), ("int", "True")],
+        "float": [("float",), ("float", "int"), ("int", "float", "float"), ("str",), ("complex", "float"), ("True", "float"), ("float", "False")],
         "bool": [("True",), ("True", "False"), ("False", "False", "True"), ("str",)],
         "str": [("str",), ("str", "str"), ("int",), ("str", "float")],
     }
@@ -134,6 +140,8 @@ def gen_specs(tier, seed):
                 for body in BODIES[lt]:
                     if body == "index":
                         continue
+                    if body == "func" and lt != "bool" and any(k in ("True", "False") for k in kinds):
+                        continue    # a function of the *constant* 1 is a number in the code and an uninterpreted term in the model
                     for before, after in ((False, "none"), (True, "stmt"), (False, "use")):
                         if tier == "quick" and br != "sq" and (before or after != "none") and len(kinds) > 1:
                             continue
@@ -153,7 +161,8 @@ def main():
     rep.assumptions = [
         "range trip counts > K are outside the claim (assumed away in both the stub and the reference)",
         "INT literals cannot be negative in the grammar, so only non-negative steps are reachable; step 0 must be refused",
-        "bool/int crossovers in value lists (1 in a bool loop, True in an int loop) are not part of the claim",
+        "a number in a bool loop is not part of the claim; a boolean listed in an int / float loop must either be refused or bind the variable "
+        "to the converted number (kind included: `A[i]`, modes and serialisation depend on it) - both readings of the property are accepted",
         "reference: bbverif/ref/interp.py forloop (unrolling with the variable bound to the converted value)",
     ]
     specs = gen_specs(t, common.seed())
